@@ -16,14 +16,14 @@ LEVEL = 'exploration'
 DECIDING = 'draws'
 CHUNK = {'quick': 1, 'thorough': 1}
 TIMEOUT = 2400
-BOOSTS = [0.3, 1.0, 1.7, 3.0, 10.0]
+BOOSTS = [0.3, 1.0, 1.7, 3.0, 10.0, 1e-3, 2e-4]      # the last two: sum of r of order one, empty draws are common
 LOG_P = float(np.log(1e9))
 FAMILIES = ['gauss', 'plateau', 'mixture', 'islands', 'funnel', 'corr', 'periodic', 'staircase']
 RULE = ('case = one real seeded run (families incl. -inf plateaus/islands so that zero-weight rows exist; blobs of '
         'several kinds) stopped in one of three states (finished; finished with exploration discarded; stopped in '
         'the middle of exploration; every second sampler writes a checkpoint file and every fourth is a new object resumed '
         'from it), then D = 200 (quick) / 1500 (thorough) draws of posterior(equal_weight=True, '
-        'equal_weight_boost=b, return_blobs=True) for each b in {0.3, 1, 1.7, 3, 10}. Every draw: rows are the '
+        'equal_weight_boost=b, return_blobs=True) for each b in {0.3, 1, 1.7, 3, 10, 1e-3, 2e-4}. Every draw: rows are the '
         'weighted rows in original order with multiplicity floor(r) or floor(r)+1 (exactly floor(r) for integer r), '
         'no repeats for b <= 1, log_l/blobs of repeats identical, weights all -log n, weighted posterior and '
         'statistics unchanged. Ensemble: the summed multiplicities minus D*r, overall and in eight weight-quantile '
@@ -66,7 +66,7 @@ def run_case(spec):
     prob = workloads.Problem(spec['prob'])
     cfg = spec['cfg']
     obs = dict(draws=0, rows_returned=0, weighted_rows=0, zero_weight_rows=0, rows_with_fractional_r=0,
-               z_tests=0, negligible_weight_row_draws=0, resumed_samplers=0, file_backed_samplers=0, z_abs_max=0.0, bernstein_ratio_max=0.0, boosts_completed=0, repeats_seen=0)
+               z_tests=0, empty_draws=0, negligible_weight_row_draws=0, resumed_samplers=0, file_backed_samplers=0, z_abs_max=0.0, bernstein_ratio_max=0.0, boosts_completed=0, repeats_seen=0)
     viols = []
     worst = {}
     obs['file_backed_samplers'] = int(bool(cfg.get('filepath')))
@@ -133,6 +133,7 @@ def run_case(spec):
                             'log_l' % (len(Q), len(qw), len(ql)), boost=boost)
                         break
                     if len(Q) == 0:
+                        obs['empty_draws'] += 1
                         continue
                     try:
                         idx = np.array([index[row.tobytes()] for row in np.ascontiguousarray(Q)])
